@@ -1,6 +1,372 @@
-(* Props/C12.v -- brace- and special-character-aware string primitives obey their algebra. *)
-From Pybtex Require Import Base.Prelude Base.PyChar Base.PyStr Model.BibtexStr Proofs.BibtexStr.
+(* Props/C12.v -- brace- and special-character-aware string primitives obey their algebra.
+   Only statements (each closed by `exact <lemma>`), their assumptions, and Examples
+   showing the hypotheses are met by non-trivial values.  Model: Model/BibtexStr.v
+   (pybtex/bibtex/utils.py); notions the property refers to: Spec/BibtexStrSpec.v. *)
+From Pybtex Require Import Base.Prelude Base.PyChar Base.PyStr Model.BibtexStr Spec.BibtexStrSpec
+  Proofs.BibtexStr Proofs.BibtexStrCase Proofs.BibtexStrSplit Proofs.BibtexStrAlg.
+
+(* ---- scanning into (token, brace level) pairs ---- *)
+
+(* lossless on balanced input: the token texts concatenate to the string *)
+Theorem scan_lossless : forall s ts, balanced s -> scan s = Ok ts -> concat (map fst ts) = s.
+Proof. exact scan_lossless_lemma. Qed.
+Print Assumptions scan_lossless.
+
+(* on ANY input the scan is lossless up to one closing brace, appended exactly when the string
+   ends inside a special character that is never closed (Spec: ends_in_special) *)
+Theorem scan_lossless_all : forall s ts, scan s = Ok ts ->
+  concat (map fst ts) = s ++ (if ends_in_special s then [c_rbrace] else []).
+Proof. exact scan_lossless_all_lemma. Qed.
+Print Assumptions scan_lossless_all.
+
+(* the level of every token is the brace depth of the string right after that token
+   (a running count that, on balanced input, never goes negative: it is a nat) *)
+Theorem scan_levels : forall s ts1 t l ts2, balanced s -> scan s = Ok (ts1 ++ (t, l) :: ts2) ->
+  depth_from 0 (concat (map fst ts1) ++ t) = Some l.
+Proof. exact scan_levels_lemma. Qed.
+Print Assumptions scan_levels.
+
+(* scanning never raises a foreign exception: it returns tokens, or the BibTeX error
+   "too many nested braces" -- the latter exactly when some brace opens a level above 100 *)
+Theorem scan_total : forall s,
+  (too_deep 100 0 s = true /\ scan s = PyErr E_BIBTEX (-1)) \/
+  (too_deep 100 0 s = false /\ exists ts, scan s = Ok ts).
+Proof. exact scan_total_lemma. Qed.
+Print Assumptions scan_total.
+
+(* hence no primitive ever raises a foreign exception: all succeed, or (nesting above 100) all
+   report the BibTeX error -- except that a prefix of n <= 0 characters is empty without scanning *)
+Theorem primitives_total : forall s,
+  (too_deep 100 0 s = false /\
+   (exists n, bibtex_len s = Ok n) /\ (forall k, exists p, bibtex_prefix s k = Ok p) /\
+   (exists p, bibtex_purify s = Ok p) /\ (forall m, exists o, change_case s m = Ok o)) \/
+  (too_deep 100 0 s = true /\
+   bibtex_len s = PyErr E_BIBTEX (-1) /\
+   (forall k, (0 < k)%Z -> bibtex_prefix s k = PyErr E_BIBTEX (-1)) /\
+   bibtex_purify s = PyErr E_BIBTEX (-1) /\ (forall m, change_case s m = PyErr E_BIBTEX (-1))).
+Proof. exact primitives_total_lemma. Qed.
+Print Assumptions primitives_total.
+
+(* ---- text length ---- *)
+
+(* bibtex_len counts the non-brace tokens of the scan: a special character is one token *)
+Theorem len_counts : forall s ts, scan s = Ok ts ->
+  bibtex_len s = Ok (length (filter (fun t => negb (tok_is_brace (fst t))) ts)).
+Proof. exact len_counts_lemma. Qed.
+Print Assumptions len_counts.
+
+(* ... and that number is BibTeX's text length (Spec): every character outside special
+   characters counts once unless it is a brace, a special character counts once *)
+Theorem len_spec : forall s n, bibtex_len s = Ok n -> n = text_len s.
+Proof. exact len_spec_lemma. Qed.
+Print Assumptions len_spec.
+
+(* what that Spec means, compositionally: the empty string has length 0; a non-brace character
+   counts one; a stray closing brace nothing; a special character {\...} (inner braces balanced)
+   counts ONE whatever it contains; an ordinary group {...} counts its non-brace characters *)
+Theorem text_len_laws :
+  text_len [] = 0 /\
+  (forall c s, is_brace c = false -> text_len (c :: s) = S (text_len s)) /\
+  (forall s, text_len (c_rbrace :: s) = text_len s) /\
+  (forall inner s, balanced inner ->
+     text_len (c_lbrace :: c_bslash :: inner ++ c_rbrace :: s) = S (text_len s)) /\
+  (forall g s, balanced g -> bs_head g = false ->
+     text_len (c_lbrace :: g ++ c_rbrace :: s) = count_nonbrace g + text_len s).
+Proof. exact text_len_laws_lemma. Qed.
+Print Assumptions text_len_laws.
+
+(* ---- text prefix ---- *)
+
+(* the text prefix of n has text length min(n, length) -- for every string and every integer *)
+Theorem prefix_len : forall s n p m, bibtex_prefix s n = Ok p -> bibtex_len s = Ok m ->
+  bibtex_len p = Ok (Z.to_nat (Z.min n (Z.of_nat m))).
+Proof. exact prefix_len_lemma. Qed.
+Print Assumptions prefix_len.
+
+(* nothing for n <= 0 (not even a nesting error) *)
+Theorem prefix_nonpositive : forall s n, (n <= 0)%Z -> bibtex_prefix s n = Ok [].
+Proof. exact prefix_nonpos_lemma. Qed.
+Print Assumptions prefix_nonpositive.
+
+(* for every string: it is a prefix of the string followed by closing braces only, never more
+   of them than the prefix leaves open *)
+Theorem prefix_is_prefix : forall s n out, bibtex_prefix s n = Ok out ->
+  exists p k, out = p ++ repeat c_rbrace k /\ is_prefix p s /\ k <= cdepth_from 0 p.
+Proof. exact prefix_is_prefix_lemma. Qed.
+Print Assumptions prefix_is_prefix.
+
+(* it is a prefix of the string followed by EXACTLY as many closing braces as that prefix leaves
+   open.  FULL STATEMENT (all strings) is refuted below (finding C12-P1); proved for every string
+   that does not end inside a never-closed special character (stray braces allowed) ... *)
+Theorem prefix_shape_partial : forall s n out, ends_in_special s = false -> bibtex_prefix s n = Ok out ->
+  exists p k, out = p ++ repeat c_rbrace k /\ is_prefix p s /\ k = cdepth_from 0 p.
+Proof. exact prefix_shape_exact_lemma. Qed.
+Print Assumptions prefix_shape_partial.
+
+(* ... in particular for balanced strings (depth as the running count of the Spec) *)
+Theorem prefix_shape_balanced : forall s n out, balanced s -> bibtex_prefix s n = Ok out ->
+  exists p k, out = p ++ repeat c_rbrace k /\ is_prefix p s /\ depth_from 0 p = Some k.
+Proof. exact prefix_shape_lemma. Qed.
+Print Assumptions prefix_shape_balanced.
+
+(* hence the prefix of a balanced string is balanced: it closes the braces it opened *)
+Theorem prefix_closes_partial : forall s n out, balanced s -> bibtex_prefix s n = Ok out -> balanced out.
+Proof. exact prefix_balanced_lemma. Qed.
+Print Assumptions prefix_closes_partial.
+
+(* finding C12-P1: on the unbalanced string "{\{" the prefix "{\{}" leaves a brace open *)
+Theorem prefix_closes_refuted : exists s n out, bibtex_prefix s n = Ok out /\ cdepth_from 0 out <> 0.
+Proof. exact prefix_closes_refuted_lemma. Qed.
+Print Assumptions prefix_closes_refuted.
+
+(* ---- substring ---- *)
+
+(* bibtex_substring is BibTeX's substring$ (Spec: 1-based, end-relative for a negative
+   start, clamped, empty for len <= 0 / start = 0 / |start| > |s|) -- all strings, all of Z *)
+Theorem substring_spec : forall s start len, bibtex_substring s start len = substring_spec s start len.
+Proof. exact substring_spec_lemma. Qed.
+Print Assumptions substring_spec.
 
 Theorem substring_zero : forall s l, bibtex_substring s 0 l = [].
 Proof. exact substring_start_zero. Qed.
 Print Assumptions substring_zero.
+
+(* the same without the Spec: a positive start is plain 1-based selection clamped at the end,
+   a negative start is the mirror image (counted from the end, selecting towards the beginning) *)
+Theorem substring_positive : forall s start len, (1 <= start)%Z ->
+  bibtex_substring s start len = firstn (Z.to_nat len) (skipn (Z.to_nat (start - 1)) s).
+Proof. exact substring_positive_lemma. Qed.
+Print Assumptions substring_positive.
+
+Theorem substring_mirror : forall s k l, (0 < k)%Z ->
+  bibtex_substring s (- k) l = rev (bibtex_substring (rev s) k l).
+Proof. exact substring_mirror_lemma. Qed.
+Print Assumptions substring_mirror.
+
+Theorem substring_contiguous : forall s start len, exists a b, s = a ++ bibtex_substring s start len ++ b.
+Proof. exact substring_contiguous_lemma. Qed.
+Print Assumptions substring_contiguous.
+
+Theorem substring_length_le : forall s start len, length (bibtex_substring s start len) <= length s.
+Proof. exact substring_length_le_lemma. Qed.
+Print Assumptions substring_length_le.
+
+(* ---- purify ---- *)
+
+Theorem purify_alphabet : forall s p, bibtex_purify s = Ok p ->
+  Forall (fun c => is_alnum c || N.eqb c c_space = true) p.
+Proof. exact purify_alphabet_lemma. Qed.
+Print Assumptions purify_alphabet.
+
+Theorem purify_idem : forall s p, bibtex_purify s = Ok p -> bibtex_purify p = Ok p.
+Proof. exact purify_idem_lemma. Qed.
+Print Assumptions purify_idem.
+
+(* ---- case change (mode 0 = 'l', 1 = 'u', other = 't') ---- *)
+(* The laws hold for every string that does not end inside a never-closed special character
+   (for those the scanner emits a closing brace that is not in the input, see
+   change_case_unbalanced_example and change_case_upto_case_all); balanced strings are such. *)
+Theorem balanced_not_in_special : forall s, balanced s -> ends_in_special s = false.
+Proof. exact balanced_not_in_special_lemma. Qed.
+Print Assumptions balanced_not_in_special.
+
+(* letters are preserved up to case, everything else exactly *)
+Theorem change_case_upto_case : forall s mode out, ends_in_special s = false -> change_case s mode = Ok out ->
+  lower out = lower s.
+Proof. exact change_case_upto_case_gen. Qed.
+Print Assumptions change_case_upto_case.
+
+(* ... and on any input, up to that one closing brace *)
+Theorem change_case_upto_case_all : forall s mode out, change_case s mode = Ok out ->
+  lower out = lower (s ++ (if ends_in_special s then [c_rbrace] else [])).
+Proof. exact change_case_upto_case_all_lemma. Qed.
+Print Assumptions change_case_upto_case_all.
+
+Theorem change_case_length : forall s mode out, ends_in_special s = false -> change_case s mode = Ok out ->
+  length out = length s.
+Proof. exact change_case_length_gen. Qed.
+Print Assumptions change_case_length.
+
+Theorem change_case_idem : forall s mode out, ends_in_special s = false -> change_case s mode = Ok out ->
+  change_case out mode = Ok out.
+Proof. exact change_case_idem_gen. Qed.
+Print Assumptions change_case_idem.
+
+(* the result is the concatenation of per-token images; a token inside braces (level > 0)
+   that is not a special character is unchanged; of a special character (level 1, starts
+   with a backslash) only the space-separated words that are not commands are converted *)
+Theorem change_case_braces : forall s mode out, change_case s mode = Ok out ->
+  exists ts outs, scan s = Ok ts /\ out = concat outs /\
+    Forall2 (fun (t : tok) (o : str) =>
+      (0 < snd t -> is_special_tok (fst t) (snd t) = false -> o = fst t) /\
+      (is_special_tok (fst t) (snd t) = true ->
+         exists st, o = join [c_space] (map (fun w => if bs_head w then w else convert mode st w)
+                                            (split_on [c_space] (fst t))))) ts outs.
+Proof. exact change_case_braces_lemma. Qed.
+Print Assumptions change_case_braces.
+
+(* ---- top-level splitting (any separator matcher m; strip=False, filter_empty=False) ---- *)
+
+(* drops only separators: the pieces, each followed by the text of a separator match,
+   re-assemble the string -- for every string, balanced or not *)
+Theorem split_reassemble : forall m s pieces, split_tex_string_gen m s false false = Ok pieces ->
+  (s = [] /\ pieces = []) \/
+  exists pairs lastp,
+    pieces = map fst pairs ++ [lastp] /\
+    s = flat_map (fun ps => fst ps ++ snd ps) pairs ++ lastp /\
+    Forall (matched m) (map snd pairs).
+Proof. exact split_reassemble_lemma. Qed.
+Print Assumptions split_reassemble.
+
+(* never splits inside braces: on a balanced string every piece is balanced and no
+   separator contains a brace, so every separator lies at brace depth 0.
+   FULL STATEMENT (all strings, clamped depth) is refuted below (finding C12-S1) *)
+Theorem split_never_in_braces_partial : forall m s pieces, balanced s ->
+  split_tex_string_gen m s false false = Ok pieces ->
+  (s = [] /\ pieces = []) \/
+  exists pairs lastp,
+    pieces = map fst pairs ++ [lastp] /\
+    s = flat_map (fun ps => fst ps ++ snd ps) pairs ++ lastp /\
+    Forall balanced pieces /\ Forall (Forall (fun c => is_brace c = false)) (map snd pairs).
+Proof. exact split_top_level_lemma. Qed.
+Print Assumptions split_never_in_braces_partial.
+
+(* the same for every string all of whose groups are closed (stray closing braces allowed; depth
+   clamped at 0 as BibTeX does): every piece returns to depth 0, no separator contains an opening brace *)
+Theorem split_never_in_braces_clamped : forall m s pieces, cdepth_from 0 s = 0 ->
+  split_tex_string_gen m s false false = Ok pieces ->
+  (s = [] /\ pieces = []) \/
+  exists pairs lastp,
+    pieces = map fst pairs ++ [lastp] /\
+    s = flat_map (fun ps => fst ps ++ snd ps) pairs ++ lastp /\
+    Forall (fun p => cdepth_from 0 p = 0) pieces /\
+    Forall (Forall (fun c => is_lbrace c = false)) (map snd pairs).
+Proof. exact split_top_level_c_lemma. Qed.
+Print Assumptions split_never_in_braces_clamped.
+
+Theorem split_never_in_braces_refuted :
+  exists s pieces p, split_tex_string_gen sep_space s false true = Ok pieces /\
+                     In p pieces /\ cdepth_from 0 p <> 0.
+Proof. exact split_top_level_refuted_lemma. Qed.
+Print Assumptions split_never_in_braces_refuted.
+
+(* split_tex_string never raises and the model's fuel suffices *)
+Theorem split_total : forall m s st fe, exists pieces, split_tex_string_gen m s st fe = Ok pieces.
+Proof. exact split_total_lemma. Qed.
+Print Assumptions split_total.
+
+(* strip / filter_empty are post-processing of the raw pieces: strip per piece, then drop empty ones *)
+Theorem split_strip_filter : forall m s st fe pieces, split_tex_string_gen m s st fe = Ok pieces ->
+  exists raw, split_tex_string_gen m s false false = Ok raw /\
+    pieces = (if fe then filter (fun p => negb (match p with [] => true | _ => false end)) else (fun l => l))
+               (if st then map strip raw else raw).
+Proof. exact split_strip_filter_lemma. Qed.
+Print Assumptions split_strip_filter.
+
+(* ... and strip removes only surrounding whitespace *)
+Theorem strip_only_whitespace : forall s, exists a b, s = a ++ strip s ++ b /\
+  Forall (fun c => is_space c = true) a /\ Forall (fun c => is_space c = true) b.
+Proof. exact strip_spec. Qed.
+Print Assumptions strip_only_whitespace.
+
+(* what the four separators of pybtex match: "," / "-" / " and " in any case /
+   a non-empty run of whitespace, ties and backslashes (of "\ ") *)
+Theorem split_separators :
+  (forall sep, matched sep_comma sep -> sep = [c_comma]) /\
+  (forall sep, matched sep_hyphen sep -> sep = [c_hyphen]) /\
+  (forall sep, matched sep_and sep -> exists b c d, sep = [c_space; b; c; d; c_space] /\
+      to_lower b = 97%N /\ to_lower c = 110%N /\ to_lower d = 100%N) /\
+  (forall sep, matched sep_space sep -> sep <> [] /\ Forall (fun c => spacelike c = true) sep).
+Proof. exact (conj matched_comma (conj matched_hyphen (conj matched_and matched_space))). Qed.
+Print Assumptions split_separators.
+
+(* ---- the algebra: a balanced string in front does not interfere ---- *)
+
+Theorem scan_app : forall a b ra rb, balanced a -> scan a = Ok ra -> scan b = Ok rb ->
+  scan (a ++ b) = Ok (ra ++ rb).
+Proof. exact scan_app_lemma. Qed.
+Print Assumptions scan_app.
+
+Theorem len_additive : forall a b n m, balanced a -> bibtex_len a = Ok n -> bibtex_len b = Ok m ->
+  bibtex_len (a ++ b) = Ok (n + m).
+Proof. exact len_additive_lemma. Qed.
+Print Assumptions len_additive.
+
+Theorem purify_additive : forall a b p q, balanced a -> bibtex_purify a = Ok p -> bibtex_purify b = Ok q ->
+  bibtex_purify (a ++ b) = Ok (p ++ q).
+Proof. exact purify_additive_lemma. Qed.
+Print Assumptions purify_additive.
+
+(* for every width table cw (the table is data: charwidths.get(c, 0)) *)
+Theorem width_additive : forall cw a b x y, balanced a -> bibtex_width cw a = Ok x -> bibtex_width cw b = Ok y ->
+  bibtex_width cw (a ++ b) = Ok (x + y)%Z.
+Proof. exact width_additive_lemma. Qed.
+Print Assumptions width_additive.
+
+(* ---- first letter ---- *)
+
+(* on a balanced string bibtex_first_letter looks at exactly the "characters" text.length$ counts
+   (the non-brace tokens of the scan), and returns the first that is a letter or a special character *)
+Theorem first_letter_spec : forall s ts, balanced s -> scan s = Ok ts ->
+  bibtex_first_letter s = Ok (first_letter_of (map fst (filter (fun t => negb (tok_is_brace (fst t))) ts))).
+Proof. exact first_letter_spec_lemma. Qed.
+Print Assumptions first_letter_spec.
+
+(* the result is empty, one letter, or a whole special character in its braces *)
+Theorem first_letter_shape : forall s r, bibtex_first_letter s = Ok r ->
+  r = [] \/ (exists c, r = [c] /\ is_alpha c = true) \/
+  (exists t, r = c_lbrace :: t ++ [c_rbrace] /\ bs_head t = true /\ 2 <= length t).
+Proof. exact first_letter_shape_lemma. Qed.
+Print Assumptions first_letter_shape.
+
+(* ---- non-vacuity ---- *)
+Example scan_example :
+  balanced (s2l "a{b{\c}}{\'e}f") /\
+  scan (s2l "a{b{\c}}{\'e}f") =
+    Ok [(s2l "a", 0); (s2l "{", 1); (s2l "b", 1); (s2l "{", 2); (s2l "\", 2); (s2l "c", 2); (s2l "}", 1); (s2l "}", 0);
+        (s2l "{", 1); (s2l "\'e", 1); (s2l "}", 0); (s2l "f", 0)].
+Proof. vm_compute. auto. Qed.
+Example scan_unbalanced_example :   (* why "on balanced input": the closing brace is not in the input *)
+  scan (s2l "{\a") = Ok [(s2l "{", 1); (s2l "\a", 1); (s2l "}", 0)].
+Proof. vm_compute. reflexivity. Qed.
+Example scan_too_deep_example :
+  too_deep 100 0 (repeat c_lbrace 101) = true /\ too_deep 100 0 (repeat c_lbrace 100) = false.
+Proof. vm_compute. auto. Qed.
+Example len_example : bibtex_len (s2l "de la Vall{\'e}e {P}oussin") = Ok 20 /\ bibtex_len (s2l "{\abc") = Ok 1.
+Proof. vm_compute. auto. Qed.
+Example prefix_example :
+  bibtex_prefix (s2l "ab{\cd}e") 3 = Ok (s2l "ab{\cd}") /\ bibtex_prefix (s2l "a{b{cd}}") 3 = Ok (s2l "a{b{c}}")
+  /\ balanced (s2l "a{b{cd}}") /\ bibtex_prefix (s2l "abc") 0 = Ok [] /\ bibtex_prefix [] 1 = Ok [].
+Proof. vm_compute. auto 6. Qed.
+Example substring_example :
+  bibtex_substring (s2l "abcdef") (-2) 3 = s2l "cde" /\ bibtex_substring (s2l "abc") (-1) 5 = s2l "abc"
+  /\ bibtex_substring (s2l "abc") (-10) 1 = [] /\ bibtex_substring (s2l "abcdef") 2 1000 = s2l "bcdef".
+Proof. vm_compute. auto. Qed.
+Example purify_example :
+  bibtex_purify (s2l "{\noopsort{1973a}}A-b~c, {\'E}!") = Ok (s2l "1973aA b c E").
+Proof. vm_compute. reflexivity. Qed.
+Example change_case_example :
+  balanced (s2l "And {\Now: {BOOO}!!!}") /\ ends_in_special (s2l "a}b{\c}") = false /\
+  change_case (s2l "And {\Now: {BOOO}!!!}") 0 = Ok (s2l "and {\Now: {booo}!!!}") /\
+  change_case (s2l "And Now: BOOO!!!") 2 = Ok (s2l "And now: Booo!!!") /\
+  change_case (s2l "The {\TeX book \noop}") 1 = Ok (s2l "THE {\TeX BOOK \noop}").
+Proof. vm_compute. auto 6. Qed.
+Example change_case_unbalanced_example : change_case (s2l "{\") 0 = Ok (s2l "{\}").
+Proof. vm_compute. reflexivity. Qed.
+Example split_example :
+  balanced (s2l "a {b c} d and {e and f} AND g") /\
+  split_tex_string_gen sep_and (s2l "a {b c} d and {e and f} AND g") false false =
+    Ok [s2l "a {b c} d"; s2l "{e and f}"; s2l "g"] /\
+  split_tex_string_gen sep_space (s2l "a {b c}~d\ e\~f") false true = Ok [s2l "a"; s2l "{b c}"; s2l "d"; s2l "e\~f"].
+Proof. vm_compute. auto. Qed.
+Example algebra_example :
+  balanced (s2l "a{\'e}") /\ bibtex_len (s2l "a{\'e}") = Ok 2 /\ bibtex_len (s2l "{x}y") = Ok 2 /\
+  bibtex_len (s2l "a{\'e}{x}y") = Ok 4 /\
+  bibtex_first_letter (s2l "12{\TeX} markup") = Ok (s2l "{\TeX}") /\ bibtex_first_letter (s2l "{1}{b}c") = Ok (s2l "b").
+Proof. vm_compute. auto 8. Qed.
+(* why the case-change laws exclude strings ending inside a never-closed special character:
+   there change_case is not even idempotent (each pass appends the scanner's closing brace) *)
+Example change_case_not_idem_example :
+  ends_in_special (s2l "{\{") = true /\
+  change_case (s2l "{\{") 0 = Ok (s2l "{\{}") /\ change_case (s2l "{\{}") 0 = Ok (s2l "{\{}}").
+Proof. vm_compute. auto. Qed.
